@@ -38,10 +38,10 @@ def norm_db(v, typ):
     if v is None:
         return None
     if typ in ('array', 'object'):
-        # SQLite has no array/object type: the dumper stores JSON text (and hands the same text
-        # downstream); values are compared after json.loads, JSON null == SQL NULL
+        # SQLite has no array/object type: the dumper stores JSON text in the TABLE; a null cell is SQL NULL (handled
+        # above), so the JSON text 'null' is a value of its own here
         v = json.loads(v) if isinstance(v, str) else v
-        return None if v is None else json.dumps(v, sort_keys=True)
+        return 'JSON-TEXT-null' if v is None else json.dumps(v, sort_keys=True)
     if typ == 'number':
         return float(v)
     if typ == 'boolean':
@@ -82,6 +82,10 @@ def run_case(case):
     keymode = rng.choice(['explicit_single', 'explicit_composite', 'pk_single', 'pk_composite'])
     keys = ['k1'] if 'single' in keymode else ['k1', 'k2']
     use_pk = keymode.startswith('pk')
+    # Table Schema also allows primaryKey to be a single field name (a string)
+    pk_as_string = keymode == 'pk_single' and rng.random() < 0.4
+    if pk_as_string:
+        cov['config']['primaryKey_given_as_string'] = 1
     batch = rng.choice([1, 2, 1000])
     bloom = rng.random() < 0.5
     flags = rng.random() < 0.7
@@ -89,7 +93,7 @@ def run_case(case):
     dbfile = os.path.abspath('t.db')
     engine = 'sqlite:///' + dbfile
     cfg = {'keys': keys, 'keymode': keymode, 'batch_size': batch, 'bloom': bloom, 'flags': flags,
-           'fields': fields, 'dumps': []}
+           'fields': fields, 'dumps': [], 'primaryKey_as_string': pk_as_string}
     cov['config']['%s/batch%d/bloom%s' % (keymode, batch, bloom)] = 1
     model = []          # list of row dicts
     two_tables = rng.random() < 0.4      # a second resource dumped to its own table by the same step + a bystander
@@ -184,6 +188,8 @@ def run_case(case):
         steps = [lab.source('res', gen.schema_fields(fields), rows)]
         if use_pk:
             steps.append(d.set_primary_key(list(keys)))
+            if pk_as_string:
+                steps.append(d.update_schema('res', primaryKey=keys[0]))
         tables_cfg = {'tbl': table}
         rows2 = bystander = None
         if two_tables:
@@ -224,7 +230,8 @@ def run_case(case):
         else:
             for i, (a, b) in enumerate(zip(rows, drows)):
                 bb = {k: v for k, v in b.items() if k not in ('_upd', '_upd_id')}
-                same = set(a) == set(bb) and all(norm_model(a[k], typ[k]) == norm_db(bb[k], typ[k]) for k in a)
+                # rows continue downstream UNCHANGED (same values, same Python types: a list stays a list)
+                same = set(a) == set(bb) and all(lab.value_eq(a[k], bb[k]) for k in a)
                 if not same:
                     add('downstream_row', 'dump %d row %d downstream %r, entered %r' % (di, i, bb, a),
                         'downstream_row/%s' % mode)
@@ -240,7 +247,8 @@ def run_case(case):
             def k2(r):
                 return (r['k1'], r['name'], norm_db(r.get('arr'), 'array'), norm_db(r.get('obj'), 'object'))
             if len(out.results) != 3 or lab.rows_diff(bystander, out.results[2]) or \
-                    [k2(r) for r in out.results[1]] != [k2(r) for r in rows2]:
+                    lab.rows_diff(rows2, [{k_: v_ for k_, v_ in r_.items() if k_ not in ('_upd', '_upd_id')}
+                                          for r_ in out.results[1]]):
                 add('downstream_other', 'dump %d: rows of the other resources changed downstream' % di, 'downstream_other')
             con2 = sqlite3.connect(dbfile)
             try:
